@@ -27,6 +27,8 @@ struct MJob final : yaclib::Job {
   int submitter = -1;  // -1: child job
   int seq = 0;
   int id = 0;
+  int payload = 0;      // plain, written by the submitting thread right before Submit (C04: Submit -> job edge)
+  std::atomic<int> bad_payload{0};
   u32 work = 0;         // yields inside Call
   MJob* child = nullptr;
   yaclib::IExecutor* child_to = nullptr;
@@ -55,6 +57,9 @@ struct World {
 
 void MJob::Call() noexcept {
   start = Stamp();
+  if (payload != id + 1) {
+    bad_payload.fetch_add(1, kRlx);
+  }
   if (w->wait_returned.load(kRlx) != 0) {
     w->after_wait.fetch_add(1, kRlx);
   }
@@ -72,6 +77,7 @@ void MJob::Call() noexcept {
   Jitter(work);
   if (child != nullptr) {
     child->submitted = true;
+    child->payload = child->id + 1;
     child->sub_call = Stamp();
     child_to->Submit(*child);
     child->sub_ret = Stamp();
@@ -154,6 +160,7 @@ void RunSubmitters(World& w, const Plan& p, yaclib::IExecutor& target, yaclib::F
       for (auto& j : w.jobs) {
         if (j.submitter == s) {
           j.submitted = true;
+          j.payload = j.id + 1;
           j.sub_call = Stamp();
           target.Submit(j);
           j.sub_ret = Stamp();
@@ -193,6 +200,8 @@ void CheckConservation(Ctx& ctx, World& w, bool may_drop, u64 stop_call, const c
     drops += d;
     ctx.Check(c + d == 1, "call-xor-drop", props, "job %d (submitter %d seq %d): Call x%d, Drop x%d", j.id, j.submitter,
               j.seq, c, d);
+    ctx.Check(j.bad_payload.load(kRlx) == 0, "submit-visibility", "C04,C05",
+              "job %d did not see what its submitter wrote right before Submit", j.id);
     if (d != 0) {
       ctx.Check(may_drop && stop_call != 0 && j.dropped_at > stop_call, "drop-only-when-stopped", props,
                 "job %d dropped at t=%llu although the executor was not stopped before (stop began t=%llu)", j.id,
@@ -439,6 +448,7 @@ void SimpleExecCase(Ctx& ctx, int kind) {
   for (auto& j : w.jobs) {
     if (j.submitter >= 0) {
       j.submitted = true;
+      j.payload = j.id + 1;
       j.sub_call = Stamp();
       e->Submit(j);
       j.sub_ret = Stamp();
